@@ -903,7 +903,7 @@ def run(ck):
     # ---- witness of the refuted statement first: which variant of the loop does the source implement? ----
     asis = witness_fails_on_impl()
     ck.notes["loop_variant"] = "as-is (precirc padded with len(qubits) after extension)" if asis else "repaired"
-    n_prog = 110 if ck.tier == "quick" else 1500
+    n_prog = 110 if ck.tier == "quick" else 1200
     max_len = 5 if ck.tier == "quick" else 6
     cases = [dict(WITNESS, style="witness", save=True, pass_isv=False)]
     corpus = VERIF / "corpus" / "C10"
